@@ -26,7 +26,7 @@ IsNL(it) == it = NLc
 IsLeadOp(it) == it.s = "L" /\ it.x \in {"+ ", "- ", "&& ", "|| "}
 EolForm == [x \in {"+ ", "- ", "&& ", "|| ", "* "} |-> IF x = "+ " THEN " +" ELSE IF x = "- " THEN " -" ELSE IF x = "&& " THEN " &&"
                                                        ELSE IF x = "|| " THEN " ||" ELSE " *"]
-PhysOff(op) == IF op \in {"cont_less_tab", "cont_more_tab"} THEN 1 ELSE 0
+PhysOff(op) == IF op \in {"cont_less_tab", "cont_more_tab", "assign_in_split_cond"} THEN 1 ELSE 0
 
 BodyKinds == {"stmt", "ctrl"}
 CodeKinds == {"stmt", "ctrl", "decl", "funchead", "global", "proto", "include", "define", "field"}
@@ -36,7 +36,7 @@ LocalOps == {
   "trail_space", "trail_tab", "space_indent", "less_tab", "more_tab", "double_space", "tab_before_op",
   "no_space_before_op", "no_space_after_op", "no_space_after_comma", "space_before_comma",
   "kw_no_space", "kw_semicolon", "space_after_lpar", "space_before_rpar", "return_no_paren", "two_instr",
-  "ternary", "ternary_first_operand", "ternary_last_operand", "cont_less_tab", "cont_more_tab", "eol_operator", "mult_assign", "assign_in_control", "for_loop", "goto", "label",
+  "ternary", "ternary_first_operand", "ternary_last_operand", "cont_less_tab", "cont_more_tab", "eol_operator", "assign_in_split_cond", "mult_assign", "assign_in_control", "for_loop", "goto", "label",
   "mult_decl", "decl_assign", "decl_space_not_tab", "decl_extra_tab", "star_space", "vla", "capital_var",
   "no_void", "space_before_func", "two_tabs_func", "capital_func", "paren_space_func",
   "define_expr", "macro_func", "include_c", "include_nospace", "space_before_hash", "lower_macro",
@@ -64,6 +64,7 @@ Code(op) ==
     [] op = "cont_less_tab" -> {"TOO_FEW_TAB"}
     [] op = "cont_more_tab" -> {"TOO_MANY_TAB"}
     [] op = "eol_operator" -> {"EOL_OPERATOR"}
+    [] op = "assign_in_split_cond" -> {"ASSIGN_IN_CONTROL"}
     [] op = "mult_assign" -> {"MULT_ASSIGN_LINE"}
     [] op = "assign_in_control" -> {"ASSIGN_IN_CONTROL"}
     [] op = "for_loop" -> {"FORBIDDEN_CS"}
@@ -128,6 +129,8 @@ App(op, l, i) ==
     (* the continuation line), the operator left at the end of the first line                                       *)
     [] op \in {"cont_less_tab", "cont_more_tab"} -> l.k \in {"stmt2", "ctrl2"}
     [] op = "eol_operator" -> l.k \in {"stmt2", "ctrl2"} /\ Has(l, IsLeadOp)
+    (* the assignment on the CONTINUATION line of a condition split over two lines (reported there) *)
+    [] op = "assign_in_split_cond" -> l.k = "ctrl2" /\ Has(l, IsLeadOp)
     [] op \in {"assign_in_control", "for_loop"} -> l.k = "ctrl" /\ Has(l, LAMBDA it : IsLit(it, "while ("))
     [] op \in {"goto", "label"} -> l.k = "stmt" /\ l.st = "IsFunctionCall" /\ LeadTabs(l.items) = 1
     [] op \in {"mult_decl", "decl_assign", "decl_space_not_tab", "star_space", "vla", "capital_var"} -> l.k = "decl"
@@ -180,6 +183,7 @@ Rw(op, l) ==
                                   jn == FirstIdx(its, IsNL)
                               IN SubSeq(its, 1, jn - 1) \o <<L(EolForm[its[jl].x], its[jl].w)>> \o SubSeq(its, jn, jl - 1) \o SubSeq(its, jl + 1, Len(its))
     (* parenthesised: the operand may be followed by ".x", "[i]", "++" ("4.a" would be a floating constant) *)
+    [] op = "assign_in_split_cond" -> SubSeq(its, 1, FirstIdx(its, IsLeadOp)) \o <<V1, L(" = ", 3), N1, L(")", 1)>>
     [] op = "ternary_first_operand" -> Repl(its, FirstIdx(its, IsOperandItem), <<L("(", 1), V1, L(" ? ", 3), V3, L(" : ", 3), N1, L(")", 1)>>)
     [] op = "ternary_last_operand" -> Repl(its, LastIdx(its, IsOperandItem), <<L("(", 1), V1, L(" ? ", 3), V3, L(" : ", 3), N1, L(")", 1)>>)
     [] op = "mult_assign" -> SubSeq(its, 1, je) \o <<V5, L(" = ", 3)>> \o SubSeq(its, je + 1, Len(its))
